@@ -200,7 +200,7 @@ let () =
               if Z.lt l.cap (Z.of_int l.len) then report_spec ~prop:"C13" ~pred:"cap_ge_len" ~detail:(Z.to_string l.cap);
               (* ... and never below what a reservation promised, until an operation that is allowed to
                  give capacity back (shrink_to_fit) or that replaces the vector *)
-              (match l.op with
+              (match (match l.op with "armed" :: _ :: inner -> inner | o -> o) with
                | ["reserve"; n; _] when not (is_panic l.res) && not (starts_with l.res "err") ->
                  (* the reservation was made at the length the vector still has *)
                  (try promise := Z.max !promise (Z.add (Z.of_int l.len) (Z.of_string n)) with _ -> ())
